@@ -237,6 +237,15 @@ def t3_reexport() -> Iterator[Dict[str, Any]]:
                    mod("consumer", 1, ops=flat(frm("pkg.render", "escape"), frm("pkg.render", "render"), frm("pkg", "render", "public"),
                                                alias("q", "escape"), alias("r", "render"), alias("pr", "public")))],
                   "T3", idiom="function-named-like-its-module")
+    # a PACKAGE re-exported to another depth (top.a.b documented as top.b) before its modules are analysed: what `from .. import
+    # util` means in them is decided by where they are written (top.a.util), not by where the package is documented (top.util)
+    yield project([mod("top", pkg=True, ops=[frm("a", "b", lvl=1)], all=["b"]),
+                   mod("a", 1, pkg=True),
+                   mod("util", 2, ops=flat(fn("helper"), fn("only_inner"))),
+                   mod("util", 1, ops=flat(fn("helper"), fn("only_outer"))),
+                   mod("b", 2, pkg=True),
+                   mod("m", 5, ops=flat(frm("", "util", lvl=2), frm("util", "helper", lvl=2), cls("K", body=[alias("h", "helper")]), alias("u", "util.helper"), alias("i", "util.only_inner")))],
+                  "T3", idiom="package-moved-to-another-depth")
     # the package imports the class through a module that only forwards it; the DEFINING module lists it in its own __all__
     # (the module the name is imported FROM has none): documented where the package exports it
     yield project([mod("p", pkg=True, ops=[frm("_compat", "X", lvl=1)], all=["X"]),
